@@ -41,7 +41,9 @@ def run_real(world, sim_root, hashseed=0, pyopt=0, env_extra=None, timeout=60, k
         os.makedirs(rcwd, exist_ok=True)
         py = '/venv/bin/python' if os.path.exists('/venv/bin/python') else 'python3'
         env = {'PYTHONHASHSEED': str(hashseed), 'PYTHONPATH': child.REPO_SRC, 'PYTHONDONTWRITEBYTECODE': '1',
-               'HOME': base + '/home', 'PATH': '/usr/bin:/bin', 'LANG': 'C.UTF-8', 'PYTHONUTF8': '1'}
+               'HOME': base + '/home', 'PATH': '/usr/bin:/bin', 'LANG': 'C.UTF-8', 'PYTHONUTF8': '1',
+               'TMPDIR': base + '/tmp'}          # whatever the tool leaves in its temp directory goes away with `base`
+        os.makedirs(base + '/tmp', exist_ok=True)
         if pyopt:
             env['PYTHONOPTIMIZE'] = str(pyopt)
         env.update(env_extra or {})
